@@ -352,9 +352,9 @@ class Inliner(object):
     out = []
     for s in stmts:
       out.extend(self._stmt(s, fn, stack, inlined, depth))
-    if _subst_flags(out) | _move_flags(out, fn) | _sink_flag_tests(out):
+    if _subst_flags(out) | _move_flags(out, fn) | _sink_flag_tests(out, fn):
       inlined.append('<flag>')
-    un = _unroll_literal_loops(out, getattr(self, '_module', None))
+    un = _unroll_literal_loops(out, getattr(self, '_module', None), fn)
     if un is not None:
       inlined.append('<flag>')
       out = un
@@ -964,14 +964,46 @@ def _subst_flags(block):
   return changed
 
 
-def _sink_flag_tests(block):
+def _const_id(e, module):
+  """identity of a constant expression: ('lit', value) for a literal or a module-level name bound once to a literal,
+  ('obj', name) for a module-level name bound once to object(); None otherwise"""
+  if isinstance(e, ast.Constant) and isinstance(e.value, (bool, int, str, type(None))):
+    return ('lit', type(e.value).__name__, e.value)
+  if isinstance(e, ast.Name) and module is not None:
+    vals = module.globals.get(e.id, [])
+    if len(vals) == 1 and not any(isinstance(x, ast.Global) and e.id in x.names for x in ast.walk(module.tree)):
+      v = vals[0]
+      if isinstance(v, ast.Constant) and isinstance(v.value, (bool, int, str, type(None))):
+        return ('lit', type(v.value).__name__, v.value)
+      if isinstance(v, ast.Call) and isinstance(v.func, ast.Name) and v.func.id == 'object' and not v.args:
+        return ('obj', e.id)
+    # A, B, C = range(3)   /   A, B = 'a', 'b'     at module level, bound nowhere else
+    stores = [x for x in ast.walk(module.tree) if isinstance(x, ast.Name) and x.id == e.id and isinstance(x.ctx, ast.Store)]
+    if len(stores) == 1:
+      for st in module.tree.body:
+        if isinstance(st, ast.Assign) and len(st.targets) == 1 and isinstance(st.targets[0], (ast.Tuple, ast.List)) and \
+           any(t is stores[0] for t in st.targets[0].elts):
+          idx = [k for k, t in enumerate(st.targets[0].elts) if t is stores[0]][0]
+          v = st.value
+          if isinstance(v, ast.Call) and isinstance(v.func, ast.Name) and v.func.id == 'range' and len(v.args) == 1 and \
+             isinstance(v.args[0], ast.Constant) and v.args[0].value == len(st.targets[0].elts):
+            return ('lit', 'int', idx)
+          if isinstance(v, (ast.Tuple, ast.List)) and len(v.elts) == len(st.targets[0].elts) and isinstance(v.elts[idx], ast.Constant) and \
+             isinstance(v.elts[idx].value, (bool, int, str, type(None))):
+            return ('lit', type(v.elts[idx].value).__name__, v.elts[idx].value)
+  return None
+
+
+def _sink_flag_tests(block, fn=None):
   """if c: A; r = False                      if c: A; <what `if r` does for False>
      else: B; r = <expr>            ==>      else: B; r = <expr>; if r: S1 else: S2
      if r: S1 else: S2
-  for a synthetic result name r (the value a spliced helper returned) that every arm of the first statement assigns last
-  and that only the test of the second reads.  The test moves to where its outcome is known; nothing is reordered."""
+  for a result / verdict name r that every arm of the first statement assigns last and that only the tests of the second
+  (an if / elif chain on r: `r`, `not r`, `r == K`, `r is K` with constants K) read.  The test moves to where its outcome is
+  known; nothing is reordered."""
   import re
   syn = re.compile(r'^__ret\d+$|__i\d+$')
+  module = getattr(fn, 'module', None)
   changed = False
   i = 0
   while i < len(block) - 1:
@@ -979,14 +1011,44 @@ def _sink_flag_tests(block):
     i += 1
     if not (isinstance(a, ast.If) and a.orelse and isinstance(u, ast.If)):
       continue
-    t = u.test
-    neg = isinstance(t, ast.UnaryOp) and isinstance(t.op, ast.Not)
-    core = t.operand if neg else t
-    if not isinstance(core, ast.Name) or not syn.search(core.id):
+
+    def flag_of(t):
+      core = t.operand if isinstance(t, ast.UnaryOp) and isinstance(t.op, ast.Not) else t
+      if isinstance(core, ast.Name):
+        return core.id
+      if isinstance(core, ast.Compare) and len(core.ops) == 1 and isinstance(core.ops[0], (ast.Eq, ast.NotEq, ast.Is, ast.IsNot)) and \
+         isinstance(core.left, ast.Name) and _const_id(core.comparators[0], module) is not None:
+        return core.left.id
+      return None
+    x = flag_of(u.test)
+    if x is None:
       continue
-    x = core.id
-    loads = sum(1 for st in block for y in ast.walk(st) if isinstance(y, ast.Name) and y.id == x and isinstance(y.ctx, ast.Load))
-    if loads != 1:
+    # the chain of tests on x
+    chain_tests = []
+    node = u
+    while True:
+      if flag_of(node.test) != x:
+        break
+      chain_tests.append(node.test)
+      if len(node.orelse) == 1 and isinstance(node.orelse[0], ast.If) and flag_of(node.orelse[0].test) == x:
+        node = node.orelse[0]
+      else:
+        break
+    in_tests = sum(1 for t in chain_tests for y in ast.walk(t) if isinstance(y, ast.Name) and y.id == x)
+    scope = block
+    if not syn.search(x):
+      if fn is None or isinstance(getattr(fn, 'node', None), (ast.Module, ast.Lambda)) or x in getattr(fn, 'params', ()):
+        continue
+      # a name of the function itself: in the source it is assigned once (the statement the helper was spliced into) and
+      # read only by this chain of tests
+      o_stores = sum(1 for y in ast.walk(fn.node) if isinstance(y, ast.Name) and y.id == x and isinstance(y.ctx, ast.Store))
+      o_loads = sum(1 for y in ast.walk(fn.node) if isinstance(y, ast.Name) and y.id == x and isinstance(y.ctx, ast.Load))
+      b_stores = sum(1 for st in block for y in ast.walk(st) if isinstance(y, ast.Name) and y.id == x and isinstance(y.ctx, ast.Store))
+      a_stores = sum(1 for y in ast.walk(a) if isinstance(y, ast.Name) and y.id == x and isinstance(y.ctx, ast.Store))
+      if o_stores != 1 or o_loads != in_tests or b_stores != a_stores:
+        continue
+    loads = sum(1 for st in scope for y in ast.walk(st) if isinstance(y, ast.Name) and y.id == x and isinstance(y.ctx, ast.Load))
+    if loads != in_tests:
       continue
 
     def leaves(blk):
@@ -1009,20 +1071,54 @@ def _sink_flag_tests(block):
     if lv is None or rv is None:
       continue
     all_leaves = lv + rv
-    consts = [isinstance(asg.value, ast.Constant) and isinstance(asg.value.value, (bool, type(None), int, str)) for _, asg in all_leaves]
-    if not any(consts):
+    n_assign = sum(1 for y in ast.walk(a) if isinstance(y, ast.Name) and y.id == x and isinstance(y.ctx, ast.Store))
+    if n_assign != len(all_leaves):
+      continue                # the flag is also assigned somewhere else inside the arms
+
+    def decide(t, cid):
+      neg = isinstance(t, ast.UnaryOp) and isinstance(t.op, ast.Not)
+      core = t.operand if neg else t
+      out = None
+      if isinstance(core, ast.Name):
+        if cid[0] == 'lit':
+          out = bool(cid[2])
+        elif cid[0] == 'obj':
+          out = True
+      else:
+        k = _const_id(core.comparators[0], module)
+        if k is not None:
+          eq = (k == cid)
+          if cid[0] == 'lit' and k[0] == 'lit' and isinstance(core.ops[0], (ast.Is, ast.IsNot)) and cid[1] not in ('bool', 'NoneType'):
+            return None      # identity of equal literals: leave it
+          out = eq if isinstance(core.ops[0], (ast.Eq, ast.Is)) else not eq
+      if out is None:
+        return None
+      return (not out) if neg else out
+
+    def choose(node, cid):
+      """the statements the chain runs when x holds the constant cid; None if some test cannot be decided"""
+      d = decide(node.test, cid)
+      if d is None:
+        return None
+      if d:
+        return node.body
+      if len(node.orelse) == 1 and isinstance(node.orelse[0], ast.If) and flag_of(node.orelse[0].test) == x:
+        return choose(node.orelse[0], cid)
+      return node.orelse
+    plans = []
+    for blk, asg in all_leaves:
+      cid = _const_id(asg.value, module)
+      sel = choose(u, cid) if cid is not None else None
+      plans.append(sel)
+    if not any(p is not None for p in plans):
       continue
     size = sum(1 for y in ast.walk(u) if isinstance(y, ast.stmt))
-    if consts.count(False) > 1 and size > MAX_DUP:
+    if sum(1 for p in plans if p is None) > 1 and size > MAX_DUP:
       continue
-    for (blk, asg), is_c in zip(all_leaves, consts):
-      if is_c:
-        truth = bool(asg.value.value)
-        if neg:
-          truth = not truth
-        chosen = [_clone(st) for st in (u.body if truth else u.orelse)]
+    for (blk, asg), sel in zip(all_leaves, plans):
+      if sel is not None:
         blk.pop()                      # the flag is not read on this arm any more
-        blk.extend(chosen)
+        blk.extend(_clone(st) for st in sel)
         if not blk:
           blk.append(ast.copy_location(ast.Pass(), asg))
       else:
@@ -1247,7 +1343,7 @@ def _if_chain(key, arms, at):
   return node[0]
 
 
-def _literal_table(block, i, module):
+def _literal_table(block, i, module, fn=None):
   """elements of the iterable of the for statement block[i] when that is a literal tuple / list of plain elements:
   written in place, bound to a local by the statement just before the loop, or bound once at module level."""
   loop = block[i]
@@ -1262,6 +1358,32 @@ def _literal_table(block, i, module):
       isinstance(module.globals[it.id][0], (ast.Tuple, ast.List)) and \
       not any(isinstance(x, ast.Global) and it.id in x.names for x in ast.walk(module.tree)):
     lit, drop = module.globals[it.id][0], None
+  elif isinstance(it, ast.Attribute) and isinstance(it.value, ast.Name) and it.value.id in ('self', 'cls') and fn is not None and \
+      getattr(fn, 'cls', None) is not None:
+    # a table kept as a class attribute: bound once in the class body, assigned by no method of the program
+    cls = fn.cls
+    v = cls.attrs.get(it.attr)
+    if not isinstance(v, (ast.Tuple, ast.List)):
+      return None
+    mod = cls.module
+    if any(isinstance(x, ast.Attribute) and x.attr == it.attr and isinstance(x.ctx, (ast.Store, ast.Del)) for x in ast.walk(mod.tree)):
+      return None
+    if not (0 < len(v.elts) <= MAX_UNROLL) or not all(_plain_element(e) for e in v.elts):
+      return None
+    # names of the class body (methods listed in the table) are written Class.name where the row is used
+    own = set(cls.methods) | set(cls.attrs)
+
+    class Q(ast.NodeTransformer):
+      def visit_Name(self, n):
+        if n.id in own and isinstance(n.ctx, ast.Load):
+          return ast.copy_location(ast.Attribute(value=ast.Name(id=cls.name, ctx=ast.Load()), attr=n.id, ctx=ast.Load()), n)
+        return n
+    out = []
+    for e in v.elts:
+      c = Q().visit(_clone(e))
+      ast.fix_missing_locations(c)
+      out.append(c)
+    return out
   else:
     return None
   if not (0 < len(lit.elts) <= MAX_UNROLL) or not all(_plain_element(e) for e in lit.elts):
@@ -1269,7 +1391,7 @@ def _literal_table(block, i, module):
   return list(lit.elts)
 
 
-def _unroll_literal_loops(block, module):
+def _unroll_literal_loops(block, module, fn=None):
   """for a, b in ((x1, y1), (x2, y2)): BODY   ->   BODY[a:=x1, b:=y1]; BODY[a:=x2, b:=y2]
   for a table written as a literal of plain elements (names / attributes / constants), a body without break / continue /
   else that does not assign the loop variables.  The elements of such a table are evaluated without side effects, so the
@@ -1281,14 +1403,14 @@ def _unroll_literal_loops(block, module):
     st = cur[i]
     jumps = isinstance(st, ast.For) and (bool(st.orelse) or any(isinstance(x, (ast.Break, ast.Continue)) for x in walk_no_nested(st)))
     if isinstance(st, ast.For) and jumps:
-      un = _unroll_with_jumps(cur, i, module)
+      un = _unroll_with_jumps(cur, i, module, fn)
       if un is not None:
         cur[i:i + 1] = un
         out = cur
         i += len(un)
         continue
     if isinstance(st, ast.For) and not jumps:
-      elts = _literal_table(cur, i, module)
+      elts = _literal_table(cur, i, module, fn)
       tnames = [x for x in ast.walk(st.target) if isinstance(x, ast.Name)]
       body_stores = {x.id for b in st.body for x in ast.walk(b) if isinstance(x, ast.Name) and isinstance(x.ctx, (ast.Store, ast.Del))}
       if elts is not None and tnames and not ({x.id for x in tnames} & body_stores):
@@ -1323,14 +1445,14 @@ def _unroll_literal_loops(block, module):
 _UNROLL_K = [0]
 
 
-def _unroll_with_jumps(block, i, module):
+def _unroll_with_jumps(block, i, module, fn=None):
   """the same for a body with `continue` / `break` (of this loop) and an `else` clause:
      row 1:  BODY with continue -> end of this row, break -> __brkN = True and end of this row
      row k:  if not __brkN: BODY ...
      else :  if not __brkN: ELSE
   The rows are put in tail form with the machinery used for helper returns (`continue` plays the part of `return`)."""
   st = block[i]
-  elts = _literal_table(block, i, module)
+  elts = _literal_table(block, i, module, fn)
   if elts is None:
     return None
   tnames = {x.id for x in ast.walk(st.target) if isinstance(x, ast.Name)}
@@ -1958,6 +2080,14 @@ def _drop_absorbed(repo):
           gone.append(f.key)
           if f.cls is not None and f.cls.methods.get(f.name) is f:
             del f.cls.methods[f.name]
+          # ... and out of the tree, so that whole-module walks do not meet statements that no function owns
+          par = getattr(f.node, '_parent', None)
+          for field in ('body', 'orelse', 'finalbody'):
+            blk = getattr(par, field, None)
+            if isinstance(blk, list) and any(x is f.node for x in blk):
+              blk[:] = [x for x in blk if x is not f.node]
+              if not blk and field == 'body':
+                blk.append(ast.copy_location(ast.Pass(), f.node))
         else:
           keep.append(f)
       if keep:
